@@ -22,7 +22,8 @@ LEVEL_TEXT = ("Lean 4 theorems: the (listener,host) owner computed by the holder
               "TransportServer map (the Go code ranges over an unsorted map there); an active TransportServer is bound to exactly the listener with "
               "its name and protocol; admitted listeners are a sublist of the input, each valid on its own, names unique, never on a reserved port, "
               "pairwise free of ip:port/protocol conflicts; and admission equals the greedy Spec (an entry is dropped only for its own fault or "
-              "against an admitted earlier entry).")
+              "against an admitted earlier entry)."
+              ' Source tie: the winner comparison and generatePortProtocolKey are translated from /repo on every run and proved equal to the model (Props/TieArb.lean).')
 LEVEL_NOTE = ("Assurance = weaker of (kernel-checked theorems about the model, differential correspondence with the real validator and Configuration). "
               "IP/DNS-label validators are parameters.")
 TECHNIQUE = "Lean 4 proof (permutation-invariant champion fold; admission invariants by induction) + model/implementation correspondence"
